@@ -740,7 +740,7 @@ PROP_MODULES = {
     "C10": [_DM + "taxonmodel", _IO + "nexusprocessing", "dendropy.utility.container"],
     "C11": [_DM + "taxonmodel", _DM + "treecollectionmodel", _DM + "charmatrixmodel", _DM + "datasetmodel"],
     "C12": [_DM + "basemodel", _DM + "taxonmodel", _TMD + "_tree", _TMD + "_node", _TMD + "_edge", _DM + "treecollectionmodel", _DM + "charmatrixmodel"],
-    "C13": [_DM + "basemodel", _IO + "ioservice", _IO + "newickreader", _IO + "newickyielder", _IO + "nexusreader", _IO + "nexusyielder", _DM + "treecollectionmodel"],
+    "C13": [_DM + "basemodel", _IO + "ioservice", _IO + "newickreader", _IO + "newickyielder", _IO + "nexusreader", _IO + "nexusyielder", _DM + "treecollectionmodel", _IO + "nexusprocessing", _IO + "tokenizer", _IO + "nexmlreader", _IO + "nexmlyielder"],
     "C14": ["dendropy.calculate.phylogeneticdistance", "dendropy.calculate.treemeasure"],
     "C15": [_TMD + "_tree", _TMD + "_node"],
     "C16": ["dendropy.model.parsimony", _DM + "charstatemodel"],
@@ -864,6 +864,36 @@ def shared_state_rule(index, rep, rid, modules):
                 rep.check(bad is None, rid, ci.qualname, "class-level container %s shared: %s" % (attr, bad[2] if bad else ""), "%s:%d" % (mod.relpath, ci.node.lineno), "",
                           "%s.%s is a class-level mutable container and %s %s (`%s`): all instances - every namespace, tokenizer, tree - then work on one object, so what one of them records or switches is seen by all the others" % (ci.qualname, attr, bad[0].qualname if bad else "", bad[2] if bad else "", norm(bad[1])[:60] if bad else ""))
     n += module_state_rule(index, rep, rid, modules)
+    # module-level containers handed on uncopied
+    for m in modules:
+        mod = index.module(m)
+        globs = {}
+        for st in mod.tree.body:
+            if isinstance(st, ast.Assign) and len(st.targets) == 1 and isinstance(st.targets[0], ast.Name) and _is_mutable_literal(st.value):
+                globs[st.targets[0].id] = st
+        if not globs:
+            continue
+        for f in index.functions_in_module(m):
+            pm = None
+            for x in ast.walk(f.node):
+                if isinstance(x, ast.Name) and x.id in globs and isinstance(x.ctx, ast.Load) and x.id not in f.all_params:
+                    if any(isinstance(a, ast.Assign) and any(isinstance(t, ast.Name) and t.id == x.id for t in a.targets) for a in walk_no_nested(f.node)):
+                        continue        # a local of the same name
+                    pm = pm or parent_map(f.node)
+                    par = pm.get(x)
+                    how = None
+                    if isinstance(par, ast.keyword) or (isinstance(par, ast.Call) and x in par.args and not (isinstance(par.func, ast.Name) and par.func.id in ("len", "set", "list", "dict", "tuple", "sorted", "frozenset", "iter", "enumerate", "isinstance", "zip", "sum", "max", "min", "any", "all", "str", "repr"))):
+                        callee = par if isinstance(par, ast.Call) else pm.get(par)
+                        cn = call_name(callee) if isinstance(callee, ast.Call) else ""
+                        if cn in ("join", "get", "format", "index", "count", "startswith", "endswith", "search", "match", "sub", "findall", "split", "write", "extend", "update", "append", "add"):
+                            continue    # read or copied element-wise by a builtin method
+                        how = "passes it on uncopied"
+                    elif isinstance(par, ast.Assign) and par.value is x and any(isinstance(t, ast.Attribute) for t in par.targets):
+                        how = "stores it on an object uncopied"
+                    if how:
+                        n += 1
+                        rep.check(False, rid, f.qualname, "module-level container %s shared: %s" % (x.id, how), fn_where(f, x), "",
+                                  "%s %s the module-level mutable container `%s` (`%s`): every object built this way works on the one container, so an in-place change made through one of them (a tokenizer switching hyphens or end-of-line to tokens) is seen by all the others for the rest of the process" % (f.qualname, how, x.id, norm(par)[:60]))
     return n
 
 
